@@ -1,5 +1,8 @@
 """C02 cases: multiplication."""
 from .common import *
+from . import widthsweep as _ws
+
+HARNESS_BINS_THOROUGH = ["widths"]
 
 OPS = ["overflowing_mul", "checked_mul", "wrapping_mul", "saturating_mul"]
 
@@ -76,6 +79,8 @@ def _gen_main(rng, tier):
 
 def gen(rng, tier):
     yield from _gen_main(rng, tier)
+    if tier == "thorough":
+        yield from _ws.mul(rng)
     yield from _grid(rng, tier)
     yield from _huge(rng, tier)
     yield from _exh8(rng, tier)
@@ -116,3 +121,7 @@ def _exh8(rng, tier):
             for a in range(256):
                 for b in range(256):
                     yield f"{op} {s}8x1 {hx(a)} {hx(b)}", "exhaustive8"
+
+
+def ROUTE(line):
+    return _ws.route(line, "c02")
